@@ -837,7 +837,7 @@ def s5_faithful(chk: Check, proj: Project) -> None:
 
 
 MANIFEST = {
-    "text": "Decides termination structure of the hand-written scanners for ALL inputs: a disjunctive fact analysis over the CFG of each loop proves that every path back to the loop head consumed input (using what branch conditions and earlier primitives established about the unchanged cursor) or changed the loop's measure; plus raise classification, bounds-guard matching for text subscripts, domination of every container push by the depth limit, and regex ambiguity degree from the parse tree. Also: serialisation wraps quotes, then translation, then spread/filter prefix; the container loop is left only with an empty stack or a raise; terminal look-ahead follows the whitespace skip. Round 4 / triage: run-time built scanner patterns cannot backtrack exponentially, a possibly-None component name is tested before string helpers see it, Django helpers with a bare next() are wrapped (from the installed Django source), the patched compile_nodelist keeps Django's error handling (shared with C10-S1). Round 5: no `assert` in the parsing scope (AssertionError is another exception type). Round 6: the not-at-end fact used by a text[index] read is fresh (no consuming call since the last bounds test).",
+    "text": "Decides termination structure of the hand-written scanners for ALL inputs: a disjunctive fact analysis over the CFG of each loop proves that every path back to the loop head consumed input (using what branch conditions and earlier primitives established about the unchanged cursor) or changed the loop's measure; plus raise classification, bounds-guard matching for text subscripts, domination of every container push by the depth limit, and regex ambiguity degree from the parse tree. Also: serialisation wraps quotes, then translation, then spread/filter prefix; the container loop is left only with an empty stack or a raise; terminal look-ahead follows the whitespace skip. Round 4 / triage: run-time built scanner patterns cannot backtrack exponentially, a possibly-None component name is tested before string helpers see it, Django helpers with a bare next() are wrapped (from the installed Django source), the patched compile_nodelist keeps Django's error handling (shared with C10-S1). Round 5: no `assert` in the parsing scope (AssertionError is another exception type). Round 6: the not-at-end fact used by a text[index] read is fresh (no consuming call since the last bounds test). Round 7: class names built in the parsing scope do not come from tag text (F48); a closing token pops the container stack only for its own kind.",
     "note": "The semantic summaries of the scanner primitives are shape-checked against their bodies on every run (exit 2 if a primitive changes shape). Trusted: Django's own Lexer/Parser terminate. Not decided: the serialise/re-parse round trip; wall-clock bounds.",
     "technique": "static loop-progress analysis (disjunctive facts over CFG), raise/guard discipline, regex parse-tree ambiguity",
 }
